@@ -2,6 +2,7 @@ package checks
 
 import (
 	"fmt"
+	"strings"
 	"time"
 
 	"verifharness/ev"
@@ -452,6 +453,28 @@ func c20Exec(run *ev.Run, c ev.Case) {
 			i := ipmi.EntityInstance(v)
 			if i.IsSystemRelative() != (v <= 0x5f) || i.IsDeviceRelative() != (v >= 0x60) {
 				viol("entity-instance", fmt.Sprintf("instance %#x: system-relative %v device-relative %v", v, i.IsSystemRelative(), i.IsDeviceRelative()), nil)
+			}
+			// the rendering names the class and the number within it (device-relative numbers count from 0x60)
+			var str string
+			if pv, _ := safe(func() { str = i.String() }); pv != nil {
+				viol("entity-instance-string", fmt.Sprintf("instance %#x: String() panicked: %v", v, pv), nil)
+				continue
+			}
+			num, class := -1, ""
+			fmt.Sscanf(str, "%d", &num)
+			sys, dev := strings.Count(str, "System-relative"), strings.Count(str, "Device-relative")
+			switch {
+			case sys == 1 && dev == 0:
+				class = "system"
+			case dev == 1 && sys == 0:
+				class = "device"
+			}
+			wantNum, wantClass := v, "system"
+			if v >= 0x60 {
+				wantNum, wantClass = v-0x60, "device"
+			}
+			if num != wantNum || class != wantClass {
+				viol("entity-instance-string", fmt.Sprintf("instance %#x renders as %q, want number %d of the %s-relative class", v, str, wantNum, wantClass), nil)
 			}
 		}
 	}
